@@ -69,7 +69,25 @@ pub fn build_lang(tcs: &[String], cfg: &Cfg) -> Built {
 /// product state's access string replayed on the real `regex::Regex` compiled from `a_text`.
 /// A disagreement between my automaton and the real engine is a machinery error.
 pub fn leq_conf(run: &Run, a_text: &str, a: &Hir, b: &Hir) -> Result<(Option<Diff>, Stats), String> {
-    let (d, st) = lang::compare(a, b, true)?;
+    leq_conf_tcs(run, a_text, a, b, &[])
+}
+
+/// As `leq_conf`; when one side contains a construct the automaton construction does not model (a word boundary,
+/// which the unchanged tree never emits but a broken one may, e.g. an unescaped backslash before `b`), fall back to
+/// the real engine on both sides over the edit-distance-1 neighbourhood of the test cases. A difference found that
+/// way is a real difference (both verdicts come from the regex crate); no difference found is NOT equality, so the
+/// original machinery error stands.
+pub fn leq_conf_tcs(run: &Run, a_text: &str, a: &Hir, b: &Hir, tcs: &[String]) -> Result<(Option<Diff>, Stats), String> {
+    let (d, st) = match lang::compare(a, b, true) {
+        Ok(x) => x,
+        Err(e) if e.starts_with("unsupported") && !tcs.is_empty() => {
+            return match engine_fallback(a, b, tcs) {
+                Some(d) => Ok((Some(d), Stats::default())),
+                None => Err(format!("{e} (and the real-engine fallback over the neighbourhood of the test cases found no difference)")),
+            };
+        }
+        Err(e) => return Err(e),
+    };
     run.add_stats(&st);
     if std::env::var("VERIF_NOCONF").is_ok() {
         return Ok((d, st));
@@ -82,6 +100,56 @@ pub fn leq_conf(run: &Run, a_text: &str, a: &Hir, b: &Hir) -> Result<(Option<Dif
     }
     run.traces.fetch_add(st.access.len() as u64, Ordering::Relaxed);
     Ok((d, st))
+}
+
+fn engine_fallback(a: &Hir, b: &Hir, tcs: &[String]) -> Option<Diff> {
+    use regex_automata::meta::Regex;
+    let anch = |h: &Hir| Hir::concat(vec![Hir::look(Look::Start), h.clone(), Hir::look(Look::End)]);
+    let ra = Regex::builder().build_from_hir(&anch(a)).ok()?;
+    let rb = Regex::builder().build_from_hir(&anch(b)).ok()?;
+    let mut sigma: Vec<char> = tcs.iter().flat_map(|t| t.chars()).collect();
+    sigma.extend(['x', '0', ' ', '\n', '.', '\u{e9}', '_']);
+    sigma.sort();
+    sigma.dedup();
+    sigma.truncate(24);
+    let mut probe = |w: String| -> Option<Diff> {
+        let (ia, ib) = (ra.is_match(w.as_str()), rb.is_match(w.as_str()));
+        if ia != ib {
+            Some(Diff { witness: w, in_a: ia, in_b: ib })
+        } else {
+            None
+        }
+    };
+    for t in tcs {
+        let cs: Vec<char> = t.chars().collect();
+        if let Some(d) = probe(t.clone()) {
+            return Some(d);
+        }
+        for i in 0..=cs.len() {
+            if i < cs.len() {
+                let mut del = cs.clone();
+                del.remove(i);
+                if let Some(d) = probe(del.iter().collect()) {
+                    return Some(d);
+                }
+            }
+            for c in &sigma {
+                let mut insr = cs.clone();
+                insr.insert(i, *c);
+                if let Some(d) = probe(insr.iter().collect()) {
+                    return Some(d);
+                }
+                if i < cs.len() && cs[i] != *c {
+                    let mut sub = cs.clone();
+                    sub[i] = *c;
+                    if let Some(d) = probe(sub.iter().collect()) {
+                        return Some(d);
+                    }
+                }
+            }
+        }
+    }
+    None
 }
 
 /// Same without conformance (both sides are models or stage snapshots).
@@ -122,7 +190,7 @@ pub fn check_spec_eq(ctx: &Ctx, prop: &str, tcs: &[String], cfg: &Cfg) {
         }
     };
     let sp = crate::spec::spec(tcs, cfg, &ctx.k);
-    match leq_conf(run, &text, &hir, &sp) {
+    match leq_conf_tcs(run, &text, &hir, &sp, tcs) {
         Err(e) => run.machinery_error(e),
         Ok((None, _)) => {
             if run.want_sample() {
@@ -164,7 +232,7 @@ pub fn check_diff(ctx: &Ctx, prop: &str, tcs: &[String], a: &Cfg, b: &Cfg, what:
     let sa = side(a, "with");
     let sb = side(b, "without");
     let ((oa, ta, ha), (ob, _tb, hb)) = (sa?, sb?);
-    match leq_conf(run, &ta, &ha, &hb) {
+    match leq_conf_tcs(run, &ta, &ha, &hb, tcs) {
         Err(e) => run.machinery_error(e),
         Ok((None, _)) => {
             if run.want_sample() {
